@@ -33,7 +33,7 @@ SAFE_BUILTINS = {
     'len': len, 'chr': chr, 'ord': ord, 'range': range, 'all': all, 'any': any, 'sorted': sorted, 'min': min, 'max': max,
     'str': str, 'int': int, 'list': list, 'tuple': tuple, 'set': set, 'frozenset': frozenset, 'bool': bool, 'repr': repr,
     'enumerate': enumerate, 'zip': zip, 'reversed': reversed, 'sum': sum, 'isinstance': isinstance, 'type': type,
-    'dict': dict, 'abs': abs, 'OrderedDict': dict, 'float': float, 'round': round, 'divmod': divmod, 'map': map, 'filter': filter,
+    'dict': dict, 'abs': abs, 'OrderedDict': dict, 'bytes': bytes, 'float': float, 'round': round, 'divmod': divmod, 'map': map, 'filter': filter,
 }
 SAFE_ATTR_CALLS = {
     're.escape': re.escape, 're.compile': re.compile, 're.match': re.match, 're.fullmatch': re.fullmatch, 're.search': re.search,
